@@ -361,6 +361,7 @@ class Judge:
         self.n_split = 0
         self.hang_confirmed = False
         self.noted_decoy = False
+        self.runs = []
         self.levels = collections.Counter()
         self.max_runs = 20000
 
@@ -376,6 +377,7 @@ class Judge:
         verdict could not be attributed (batch failed as a whole)"""
         ctx = self.ctx
         self.n_runs += 1
+        self.runs.append(res)
         calls = dict()
         for cid, evs in calls_of(w, res):
             calls.setdefault(cid, evs)
@@ -691,6 +693,24 @@ def _run(ctx):
                 break
     ctx.cov["traces_validated_against_impl"] = n_tr
     lap("traces")
+
+    # ------------------------------------------------------------------ 4. whole-run trace validation (shared root spec)
+    import runtrace
+    runs = list(judge.runs)
+    if not thorough and len(runs) > 400:
+        runs = ctx.rng.sample(runs, 400)
+    rej = runtrace.validate_runs(ctx, runs)
+    own, other = runtrace.mine(rej, "C11")
+    for x in own:
+        ctx.violation({"kind": "run-trace-rejected", "why": x["why"][0]},
+                      {"why": x["why"], "at": x["at"], "event": x["event"], "events": x["events"]})
+    for x in other:
+        ctx.note(f"run-trace clause of {x['props']} rejected a run: {x['why']}")
+    for d in rej.drift:
+        ctx.note("drift: " + ", ".join(d["why"]))
+    ctx.cov["traces_validated_against_impl"] += rej.validated
+    ctx.cov["whole_run_traces_validated"] = rej.validated
+    lap("runtrace")
 
     if os.environ.get("VERIF_DEBUG"):
         cnt = collections.Counter(json.dumps(sg, sort_keys=True) for sg, _ in ctx.violations)
